@@ -906,7 +906,7 @@ func installSpecials(in *Interp, p *Package) {
 				return nil, e
 			}
 			fv.Fn.Macro = macro
-			fv.Fn.Name = a[0].S
+			fv.Fn.Name = in.Cur.Name + ":" + a[0].S
 			return List([]*V{Sym("lisp:progn"), List([]*V{Sym("lisp:set"), Quote(a[0]), fv}), Nil()}), nil
 		}))
 	}
